@@ -288,6 +288,39 @@ func runC19(c *Ctx) {
 			c19Origin(c, "origin-any", mutateText(relSpell(other), r), mutateText(s, r), nil, nil)
 		}
 	}
+	// 2b. pairs whose labels differ only where a careless comparison folds too much: octets that differ in bit 0x20
+	//     without being letters ('[' and '{', '@' and '`', …) and raw UTF-8 letters that Unicode folding identifies
+	//     (names as users type them); the comparison is ASCII-case-insensitive and nothing else
+	{
+		tail := [][]byte{[]byte("example"), []byte("org")}
+		var alts [][2][]byte
+		for b := 0; b < 256; b++ {
+			x := byte(b)
+			alts = append(alts, [2][]byte{{'a', x, 'b'}, {'a', x ^ 0x20, 'b'}})
+		}
+		for _, p := range [][2]string{{"\u00c9", "\u00e9"}, {"\u212a", "k"}, {"\u017f", "S"}, {"\u0130", "i"}, {"\u0394", "\u03b4"}, {"\xff", "\xfe"}} {
+			alts = append(alts, [2][]byte{[]byte(p[0]), []byte(p[1])})
+		}
+		for _, al := range alts {
+			la := append([][]byte{al[0]}, tail...)
+			lb := append([][]byte{al[1]}, tail...)
+			for _, style := range []int{0, 2} {
+				a, b := spell(la, r, 0), spell(lb, r, 0)
+				if style == 2 {
+					// the same labels with octets >= 0x80 written raw
+					a, b = string(al[0])+".example.org.", string(al[1])+".example.org."
+					if strings.ContainsAny(a+b, ".\\ \"()@;$") && (len(al[0]) != 3 || al[0][1] < 0x80) {
+						continue
+					}
+					if len(al[0]) == 3 && al[0][1] < 0x80 {
+						continue
+					}
+				}
+				c19Pair(c, "fold-pairs", a, b, la, lb)
+				c19Pair(c, "fold-pairs", b, a, lb, la)
+			}
+		}
+	}
 	// 3. non-fqdn spellings of valid names and a few odd strings: correspondence only
 	for _, s := range []string{"", "@", "a", "a.b", "a\\.b", "a\\\\.b", "\\.", "a\\.", "a\\\\.", "\\\\\\.", "www.example.org", "*.x."} {
 		c19Name(c, "misc", s, nil)
